@@ -75,6 +75,10 @@ def obligations(tier, prop=PROP, emit_too=False):
         for kind, n in (("STRING", 3), ("IDENTIFIER-value", 3), ("IDENTIFIER-key", 0), ("COMMENT", 2)):
             if shape == "deep" and not kind.startswith("IDENTIFIER"):
                 continue
-            obs.append(xh_ob(prop, f"S.symbolic-site[{shape},{kind}]", _mk_site(shape, kind, n + (1 if th else 0), emit_too), timeout=3000 if th else 1200,
+            if shape == "rich" and kind == "IDENTIFIER-value":
+                n = 2  # 21 sites
+            if emit_too and n > 0:
+                n = n - 1  # comparing two emitted texts with a symbolic site costs about a character
+            obs.append(xh_ob(prop, f"S.symbolic-site[{shape},{kind}]", _mk_site(shape, kind, n + (1 if th else 0), emit_too), timeout=3000 if th else 1500,
                              bound=(f"shape '{shape}': every key site in turn carries one of {len(dm.KEY_POOL)} keys chosen by the solver (fresh, one letter, duplicate of a sibling, parent's name, META field name, constructor name ...)" if kind.endswith("key") else f"shape '{shape}': every {kind} token site of the canonical token layout in turn carries a symbolic value |v| <= {n + (1 if th else 0)}") + (" and the re-emitted text equals the model's canonical text" if emit_too else ""), functions=pf))
     return select(obs, tier)
